@@ -184,6 +184,12 @@ def run(ctx):
             ok_some = True
         if isinstance(n.value, ast.IfExp):
             ok_none = ok_some = (norm(n.value) in ("': ' if indent is not None else ':'", "':' if indent is None else ': '"))
+    # a class-level default that __init__ overrides only when an indent was requested
+    dflt = P.cls('yatiml.dumper:Dumper').class_attrs.get('_kv_sep')
+    if dflt is not None and const_str(dflt) == ':' and seps and not any(
+            g.has_guard(n, 'indent is not None', False, expand=False) or g.has_guard(n, 'indent is None', True, expand=False)
+            or not g.guards(n) for n in seps):
+        ok_none = True
     r.check(ok_none and ok_some, 'key-value separator ":" without indent, ": " with indent', g.key('kv-sep'), g.loc(),
             'the key-value separator is not ":" when no indent is requested (or not a colon otherwise)')
     # the JSON branch is selected by output_format == 'json'
